@@ -104,7 +104,9 @@ CHECKS = {
              'server drop; uncovered edits may complete only with equal '
              'session ids and reference-negotiated algorithms; random '
              'preference lists are negotiated against the reference '
-             'first-match function.',
+             'first-match function; an active impostor (foreign key, plain '
+             'or in a certificate of an unknown CA) is run against every '
+             'shape of client trust data.',
         note='trusted: edit classification per RFC 4253/4419/5656/8731, '
              'refssh KEXINIT parser/negotiator',
         design='3/C03'),
@@ -203,7 +205,10 @@ CHECKS = {
              'normal return implies destination == source; a served block '
              'failure or a source ending before its announced size (non-'
              'sparse) implies an exception; sparse layouts incl. trailing '
-             'holes are reproduced; OpenSSH sftp get/put compared by bytes.',
+             'holes are reproduced; OpenSSH sftp get/put compared by bytes; '
+             'sequences of positioned / unpositioned reads and writes, '
+             'seek, tell and truncate on one remote file object (binary and '
+             'text mode, append) agree with a byte-array model.',
         note='trusted: vf/sftpref.py reference server (no asyncssh SFTP '
              'code); a server returning more than requested is outside the '
              'fault model',
@@ -275,7 +280,11 @@ CHECKS = {
              'with matching type, listed principal, known critical options '
              'and an intact CA signature; SSHSIG validation agrees with '
              'ssh-keygen -Y for message, namespace, principal, validity and '
-             'signer authorisation.',
+             'signer authorisation, also when one loaded allowed-signers '
+             'object is asked at different times; the certificate rules '
+             'hold where certificates are used (host and user certificates '
+             'over connections, CA from a file or vouched for by the '
+             'application callback).',
         note='trusted: PyCA and ssh-keygen as cross-checks; clock '
              'substituted for asyncssh.public_key.time / sshsig.time',
         design='3/C16'),
